@@ -79,6 +79,17 @@ def opGeom (args : List String) : String :=
       | [t, x, y, z] => showV (pipeline (fun a => a == 0) rs ts ss (parseN t) (parseV x y z))
       | _ => "bad"
     " ".intercalate ps
+  | "readtr" :: n :: rest =>
+    -- n options in the order they stand in the file: key kind(r|t) tag(-1 = none); answers the indices of the
+    -- options in the order `main` applies them
+    let rec go : Nat → Nat → List String → List (Transform Float)
+      | 0, _, _ => []
+      | k + 1, i, key :: kind :: tag :: r =>
+        ⟨parseF key, (if kind == "r" then TKind.rotate else TKind.translate), ⟨Float.ofNat i, 0, 0⟩,
+          (if tag == "-1" then none else some (parseN tag))⟩ :: go k (i + 1) r
+      | _, _, _ => []
+    let opts := go (parseN n) 0 rest
+    " ".intercalate ((readTransforms opts).map fun t => toString t.vec.x.toUInt64)
   | _ => "bad-op"
 
 end Driver
